@@ -195,13 +195,21 @@ CLAIMED.update({
              "operands every row of the regenerated operator tables maps a Go operator to the GooseLang operator with Go's wrap-around meaning "
              "(+,-,*,/,%,&,|,^,<<,>>, comparisons) and to_uN is Go's conversion; (3) scoping soundness - for every program over :=, var, assignment, nested "
              "blocks and conditionals with any shadowing pattern that the model of the let/ref translation accepts, the emitted term evaluates to Go's "
-             "value and is never stuck; the pre-repair translation (blocks without parentheses) provably is not sound. Tied to the code by regenerated canonical text and tables (rfl), by "
-             "structural correspondences (the models' outputs equal the trees the real goose emits on random control-flow skeletons and random "
-             "scoping programs, rejections and messages included; values agree with native Go) and by an end-to-end differential: generated packages run natively and through the real goose plus the Lean "
+             "value and is never stuck; the pre-repair translation (blocks without parentheses) provably is not sound; (4) the composition (Model/Core, "
+             "core_compile_correct): for every function body over :=, var, assignment, op-assignment, ++/--, if/else, for loops with init/cond/post, break, "
+             "continue, early returns, nested blocks and 64-bit wrap-around arithmetic that the model of goose accepts - and in which no loop variable "
+             "hides a visible name (the listed known finding, proved necessary) - the emitted expression computes exactly Go's result for all parameters "
+             "and all fuels, and is never stuck; (5) heap data (Model/Heap, heap_compile_correct): for every accepted program over struct values and "
+             "pointers (incl. linked structures), uint64 cells, slices and subslices, in any related pair of heaps, the emitted term returns the related "
+             "value and leaves related heaps under GooseLang's flattened representation - aliasing preserved, struct values copied, subslices share, "
+             "fresh allocation disjoint. Tied to the code by regenerated canonical text and tables (rfl), by "
+             "structural correspondences (the models' outputs equal the trees the real goose emits on random control-flow skeletons, scoping programs, "
+             "Core programs and heap programs, rejections and messages included; values agree with native Go and with the interpreter) and by an end-to-end differential: generated packages run natively and through the real goose plus the Lean "
              "reference interpreter (calibrated on every run against the repository's own semantics suite).",
         ref="DESIGN.md §6 C01",
-        note="Proved: control flow, arithmetic, scoping (each over its own model of the corresponding translator functions; their composition is "
-             "sampled). Modelled and sampled, not proved: heap (structs, slices, maps, pointers), closures, strings, encoders - covered by the differential only (partial). Trusted: GL/Sem.lean as the meaning of the emitted "
+        note="Proved: control flow, arithmetic, scoping, their composition with loops (Model/Core) and the heap fragment without append, maps, loops "
+             "(Model/Heap), each over a model of the corresponding translator functions whose output is compared with the real goose's on every run. "
+             "Sampled, not proved: maps, append, closures, strings, encoders, methods, multiple results, and the composition of Core with Heap - covered by the differential only (partial). Trusted: GL/Sem.lean as the meaning of the emitted "
              "text (reconstruction of Perennial's GooseLang, K3-calibrated), GL/Lex+Parse, the Go toolchain as the meaning of Go. Known findings "
              "(known_findings.jsonl): loop-variable scope, named-integer conversions, narrow ++/--, untyped constant operands, evaluation order, "
              "per-iteration loop variables, empty make is nil.",
@@ -210,10 +218,11 @@ CLAIMED.update({
         text="Machine-checked proof (Lean 4 kernel) of reject-or-faithful for the control-flow translation: for EVERY statement list and usage the "
              "model either reports a conversion error or produces an expression that agrees with Go on every interpretation, state and fuel; the "
              "shapes of the catalogue (return in the middle, return in a loop, break outside a loop, early return with else and remainder, nested "
-             "early return without else) are refused; weakening the endsWithReturn guard provably yields a silent mistranslation. The inventory of "
+             "early return without else) are refused; weakening the endsWithReturn guard provably yields a silent mistranslation; the same reject-or-faithful statement is proved for the "
+             "composed model of variables/assignments/loops (Model/Core) and for the heap model (Model/Heap). The inventory of "
              "the translator's 120 guard calls (function, reporter, message) is regenerated on every run and must equal the committed one (rfl). "
              "Tied to the code by that inventory, by the structural correspondence on random skeletons (which are rejected, and why), and by a "
-             "catalogue of ~95 out-of-subset constructs x 9 positions, 12 control-flow shapes, 25 declaration forms, 15 look-alike packages and a "
+             "catalogue of ~95 out-of-subset constructs x 9 positions, 12 control-flow shapes, 25 declaration forms, 18 look-alike packages and a "
              "splice stream, each function judged rejected-or-equal against native Go via the real goose and the Lean interpreter.",
         ref="DESIGN.md §6 C02",
         note="Proved: the control-flow guards. Every other guard is pinned by the regenerated inventory and exercised by the catalogue (partial: "
